@@ -113,6 +113,22 @@ def run_search(repo: Repo, res: Result) -> None:
                 n += 1
                 ok = ev.what == m.popped
                 res.add("C01.S", repo.key(fi, stmt_of(ev.call)) + " [mark]", ok, "popped node marked visited" if ok else f"`{ev.what}` marked visited instead of the popped node", where(fi, ev.call), kind="structural")
+        # adjustments of the sub-tree sets: only the identifier of a 'sub modules of' filter is taken out / put in (a named module
+        # stands for itself and all its descendants; 'sub modules of X' for X's strict descendants)
+        for op in m.set_ops:
+            if not op.what.endswith("." + S.NODE_ATTR):
+                continue
+            owner = op.what[: -len(S.NODE_ATTR) - 1]
+            n += 1
+            ok = implies(op.guard, atom(f"bool({owner}.{S.PARENT_FLAG})"))
+            res.add(
+                "C01.S",
+                repo.key(fi, stmt_of(op.node)) + " [sub-tree adjustment]",
+                ok,
+                f"`{op.what}` is {'added to' if op.kind == 'add' else 'taken out of'} `{op.var}` only for a 'sub modules of' filter" if ok else f"`{op.what}` is {'added to' if op.kind == 'add' else 'taken out of'} the sub-tree set `{op.var}` although `{owner}` need not be a 'sub modules of' filter: a named module no longer stands for itself and all its descendants",
+                where(fi, op.node),
+                kind="dominance",
+            )
         rec = [e for e in m.events if e.kind == "record" and e.in_neighbour_loop]
         pushes = [e for e in m.events if e.kind == "push"]
         # the model must have seen what the role needs, otherwise nothing above was checked
